@@ -12,7 +12,7 @@ class MachineryError(Exception):
 
 
 # a program that produces no answer for this long is treated as hanging (the executor flushes at least every 200 ms of work)
-HANG_S = float(os.environ.get("VERIF_HANG_S", "90"))
+HANG_S = float(os.environ.get("VERIF_HANG_S", "150"))
 
 
 class Executor:
